@@ -73,6 +73,27 @@ func c26R5(c *Ctx) {
 	var fns []*ssa.Function
 	fns = append(fns, fn)
 	fns = append(fns, fn.AnonFuncs...)
+	// helpers of the same package called from the reader (e.g. the header/padding length computation
+	// extracted into a function): their bodies are part of the arithmetic that is judged
+	samePkg := func(f *ssa.Function) bool {
+		return f != nil && f.Pkg != nil && fn.Pkg != nil && f.Pkg == fn.Pkg && len(f.Blocks) > 0
+	}
+	seenFn := map[*ssa.Function]bool{}
+	for _, f := range fns {
+		seenFn[f] = true
+	}
+	for i := 0; i < len(fns) && len(fns) < 16; i++ {
+		for _, b := range fns[i].Blocks {
+			for _, ins := range b.Instrs {
+				if call, ok := ins.(ssa.CallInstruction); ok {
+					if sc := call.Common().StaticCallee(); samePkg(sc) && !seenFn[sc] && sc.Signature.Recv() == nil {
+						seenFn[sc] = true
+						fns = append(fns, sc)
+					}
+				}
+			}
+		}
+	}
 	masks := map[int64]ssa.Value{} // mask -> value (b[0] & mask)
 	var extReads []*ssa.Call       // Uint16(b[lo:hi]) with non-constant lo
 	var osnIdx []ssa.Value         // non-constant indices of byte loads that are stored into b[2] / b[3]
@@ -137,7 +158,7 @@ func c26R5(c *Ctx) {
 	}
 	for i, er := range extReads {
 		sl := er.Common().Args[len(er.Common().Args)-1].(*ssa.Slice)
-		d := core.ValueDeps(sl.Low)
+		d := core.ValueDepsFollow(sl.Low, samePkg)
 		r.Cells += len(d.Values)
 		r.Check(d.ContainsEquiv(cc), "C26.R5", sprintf("rtx-unwrap|extension-length#%d|offset-depends-on-CC", i), c.P.Pos(er.Pos()),
 			"the extension length is read after the CSRC list", "the offset at which the extension length is read does not depend on the CSRC count: with CSRCs present the wrong bytes are taken as extension length and the OSN is read from the wrong place")
@@ -147,7 +168,7 @@ func c26R5(c *Ctx) {
 		r.Undecided("C26.R5", "rtx-unwrap|osn-offset", pos, "no `b[2] = b[<header length>]` / `b[3] = …` stores found")
 	}
 	for i, idx := range osnIdx {
-		d := core.ValueDeps(idx)
+		d := core.ValueDepsFollow(idx, samePkg)
 		r.Cells += len(d.Values)
 		why := ""
 		if !d.ContainsEquiv(cc) {
